@@ -19,8 +19,9 @@ after the first non-digit.  Theorems are stated for all lists, so they cover eve
 ## Arithmetic
 `uint64_t` is `Nat` reduced `% 2^64` at each operation.  `int` (`man_nd`, `exp10`, `exp`, `fract_len`) is an
 unbounded `Int`: **assumption** – the number text is shorter than `2^31 - 10^5` bytes, so that `man_nd = i -
-digit_start`, `exp10 -= (i - exp10_s)`, `exp10++` and `exp10 += exp * esm` do not overflow (`exp ≤ 99999` by the
-`exp < 10000` guard).
+digit_start`, `exp10 -= (i - exp10_s)` and `exp10++` do not overflow; the written exponent is accumulated in an
+`int64_t` (`exp < 10^16` by the `exp < 10^15` guard), `exp10 + exp * esm` is formed in 64 bits and clamped to
+`±100000` (`clampExp10`).
 
 ## Hardware (trusted)
 `(double)man`, `d * p`, `d / p` are IEEE-754 binary64 operations in the default rounding mode: the exact result
@@ -178,12 +179,16 @@ def truncLoop : List Nat → Bool → Nat → Bool × List Nat × Nat
   | [], t, i => (t, [], i)
   | c :: s, t, i => if isDigit c then truncLoop s true (i + 1) else (t, c :: s, i)
 
-/-- `while (is_digit(s[i])) { if (exp < 10000) exp = exp * 10 + (s[i] - '0'); i++; }` -/
+/-- `while (is_digit(s[i])) { if (exp < 1000000000000000) exp = exp * 10 + (s[i] - '0'); i++; }`
+    (`int64_t exp`: at most `10^16 - 1`, no overflow) -/
 def expLoop : List Nat → Int → Nat → Int × List Nat × Nat
   | [], e, i => (e, [], i)
   | c :: s, e, i =>
-    if isDigit c then expLoop s (if e < 10000 then e * 10 + ((c : Int) - 48) else e) (i + 1)
+    if isDigit c then expLoop s (if e < 1000000000000000 then e * 10 + ((c : Int) - 48) else e) (i + 1)
     else (e, c :: s, i)
+
+/-- `exp10_wide > 100000 ? 100000 : exp10_wide < -100000 ? -100000 : (int)exp10_wide` -/
+def clampExp10 (x : Int) : Int := if x > 100000 then 100000 else if x < -100000 then -100000 else x
 
 /-! ## the scanning phase: everything before the label `double_fast` -/
 
@@ -223,7 +228,8 @@ def doubleExp (neg : Bool) (s : List Nat) (i : Nat) (man : Nat) (exp10 : Int) (t
   if !isDigit (hd s) then .ret (.err errInvalidChar i)
   else
     let (exp, _, i) := expLoop s 0 i
-    .float { neg := neg, man := man, exp10 := exp10 + exp * esm, trunc := trunc, next := i }
+    -- `int64_t exp10_wide = exp10 + exp * esm;` clamped to `±100000`
+    .float { neg := neg, man := man, exp10 := clampExp10 (exp10 + exp * esm), trunc := trunc, next := i }
 
 /-- label `double_fract` up to `double_fast`; `s` points at the first fraction digit that has not been consumed -/
 def doubleFract (neg : Bool) (s : List Nat) (i : Nat) (m : Mant) (exp10S : Nat) : Acc :=
